@@ -18,10 +18,11 @@ def main(prop, mk):
     res = dict(id=sid, property=prop, base=subprocess.run("git -C /repo rev-parse --short HEAD", shell=True, capture_output=True, text=True).stdout.strip())
     try:
         demo = open(src + "/demo_test.go").read()
-        m = re.search(r"go test[^\n]*-run '?([^'\s]+)'?\s+(\S+)", demo)
-        if not m:
+        m = re.search(r"go test[^\n]*-run '?([^'\s]+)'?[^\n]*", demo)
+        mp = re.search(r"\s(\./\S*|\.)(\s|$)", m.group(0)) if m else None
+        if not m or not mp:
             res["error"] = "cannot find run command in demo"; return res
-        rx, pkg = m.group(1), m.group(2)
+        rx, pkg = m.group(1), mp.group(1)
         race = "-race " if "-race" in m.group(0) else ""
         if "VerifHook" in demo or "-tags verif" in demo:
             race += "-tags verif "
